@@ -259,7 +259,7 @@ func ReadPriFile(path string, n, limit int64, cidKey bool) (PriFile, error) {
 		if pos+4+size > int64(len(b)) {
 			break
 		}
-		r := PriRec{Off: pos, Size: size, Del: del, Pos: n*limit + pos, VLen: -1}
+		r := PriRec{Off: pos, Size: size, Del: del, Pos: n*limit + pos, VLen: -1, Dig: []int{}}
 		if !del {
 			dig, kl, bad := parseKey(b[pos+4:pos+4+size], cidKey)
 			r.Bad = bad
